@@ -4,9 +4,11 @@
 Require Extraction.
 Require Import ExtrOcamlBasic.
 Require Import GM.model.Base GM.model.Util GM.model.UtilI GM.model.HtmlDecode.
+Require Import GM.model.AstHeap GM.model.AstSpec.
 Extraction Language OCaml.
 Extraction "model.ml"
   IsPunct IsSpace EscapeHTML URLEscape UnescapePunctuations ResolveNumericReferences ResolveEntityNames
   TrimLeftSpace TrimRightSpace DoFullUnicodeCaseFolding ReplaceSpaces ToLinkReference ToRune
   html_decode valid_utf8 decode_rune encode_rune
-  bytes_hash bf_empty bf_add bf_contains bf_extend.
+  bytes_hash bf_empty bf_add bf_contains bf_extend
+  empty_heap step empty_forest spec_step legal walk walk_spec head_opt last_opt.
